@@ -23,6 +23,7 @@ Monitors (`monitor_c01`, `monitor_c12`, `monitor_c13_loop`, `monitor_c17`, `moni
 """
 import contextlib
 import io
+import json
 import logging
 import math
 import numbers
@@ -650,6 +651,175 @@ def make_script_scheduler(seed, params, metric_names, modes, with_ckpt_mixin, si
     return s
 
 
+# ---------------------------------------------------------------------------------
+# replay of a fixed dialogue (the witnesses of the Lean `_counterexample` theorems)
+
+STATUS_OF_WIRE = {"InProgress": Status.in_progress, "Paused": Status.paused, "Stopped": Status.stopped,
+                  "Stopping": Status.stopping, "Completed": Status.completed, "Failed": Status.failed}
+
+
+class ReplayBackend(ScriptBackend):
+    """in-memory backend that answers `fetch_status_results` and `busy_trial_ids` from a script (the
+    answers of a dialogue); everything else is the generic `TrialBackend`"""
+
+    def __init__(self, dialogue, metric_name, delete_checkpoints=False):
+        super().__init__(0, {"strict_ckpt": False}, 1, delete_checkpoints=delete_checkpoints)
+        self.polls = [e["ans"] for e in dialogue if e["call"][:2] == ["be", "fetch"]]
+        self.busy = [e["ans"]["ids"] for e in dialogue if e["call"][:2] == ["be", "busy"]]
+        self.metric_name = metric_name
+        self.in_fetch = False
+        self.script_exhausted = False
+        self.idle = set()  # trials whose worker is done although no poll has reported their end yet
+
+    def occupancy(self):
+        return sum(1 for tid, t in self.truth.items()
+                   if t["status"] in (Status.in_progress, Status.stopping) and tid not in self.idle)
+
+    def fetch_status_results(self, trial_ids):
+        self.in_fetch = True
+        try:
+            return super().fetch_status_results(trial_ids)
+        finally:
+            self.in_fetch = False
+
+    def _schedule(self, trial_id, config):
+        t = self.truth.setdefault(trial_id, {"metrics": [], "paused_at": 0})
+        t["status"] = Status.in_progress
+        t["config"] = config
+        t.pop("ended_at", None)
+        self.ckpt.add(trial_id)
+
+    def _pause_trial(self, trial_id, result):
+        self.truth[trial_id]["status"] = Status.paused
+
+    def _advance(self, tid):
+        pass
+
+    def _all_trial_results(self, trial_ids):
+        if self.in_fetch:
+            if self.polls:
+                a = self.polls.pop(0)
+                for tid, st in a["status"]:
+                    new = STATUS_OF_WIRE[st]
+                    t = self.truth[tid]
+                    if new != t["status"] and new in (Status.completed, Status.failed, Status.stopped):
+                        t["ended_at"] = len(self.dlg.entries) if self.dlg is not None else 0
+                    t["status"] = new
+                for tid, _rid, metrics in a["results"]:
+                    kv = dict((k, v) for k, v in metrics)
+                    self.truth[tid]["metrics"].append({self.metric_name: float(Fraction(kv[3])),
+                                                       ST_WORKER_TIMESTAMP: int(Fraction(kv[4]))})
+            else:
+                self.script_exhausted = True
+        return [TrialResult(trial_id=tid, config=self.truth[tid]["config"], creation_time=EPOCH0,
+                            metrics=list(self.truth[tid]["metrics"]), status=self.truth[tid]["status"]) for tid in trial_ids]
+
+    def busy_trial_ids(self):
+        if self.busy:
+            ids = self.busy.pop(0)
+            self.idle = {tid for tid, t in self.truth.items()
+                         if t["status"] in (Status.in_progress, Status.stopping) and tid not in ids}
+        else:
+            self.script_exhausted = True
+            ids = [tid for tid, t in self.truth.items() if t["status"] in (Status.in_progress, Status.stopping)]
+        return [(tid, self.truth[tid]["status"]) for tid in ids]
+
+
+class ReplayScheduler(ScriptScheduler):
+    """scheduler that answers `suggest` and `on_trial_result` from a script"""
+
+    def __init__(self, dialogue, metric_names, modes):
+        super().__init__(0, {}, metric_names, modes)
+        self.suggestions = [e["ans"] for e in dialogue if e["call"][:2] == ["sched", "suggest"]]
+        self.decisions = [e["ans"]["d"] for e in dialogue if e["call"][:2] == ["sched", "result"]]
+        self.script_exhausted = False
+
+    def _cfg(self, token):
+        return {"x": token / 64.0, "k": 0}
+
+    def _suggest(self, trial_id):
+        if not self.suggestions:
+            self.script_exhausted = True
+            return None
+        a = self.suggestions.pop(0)
+        if a["kind"] == "none":
+            return None
+        if a["kind"] == "start":
+            return TrialSuggestion.start_suggestion(self._cfg(a["cfg"]), checkpoint_trial_id=a["ckpt"])
+        return TrialSuggestion.resume_suggestion(trial_id=a["id"], config=None if a["cfg"] is None else self._cfg(a["cfg"]))
+
+    def on_trial_result(self, trial, result):
+        if not self.decisions:
+            self.script_exhausted = True
+            return SchedulerDecision.CONTINUE
+        return self.decisions.pop(0)
+
+    def trials_checkpoints_can_be_removed(self):
+        return []
+
+
+def witness_spec(name, w):
+    """case spec that replays the witness `w` (output of the driver op `witness`) on the real Tuner"""
+    crit = {}
+    if w.get("max_num_trials_started") is not None:
+        crit["max_num_trials_started"] = w["max_num_trials_started"]
+    return {"seed": 0, "witness": name, "backend": "replay", "scheduler": {"kind": "replay"},
+            "n_workers": w["n_workers"], "max_failures": w["max_failures"],
+            "flags": {"async": w["async"], "wait": w["wait"], "swd": w["swd"]},
+            "delete_checkpoints": w["delete_checkpoints"], "cb_store": w["store"], "criterion": crit,
+            "replay": {"dialogue": w["dialogue"], "ends": w["ends"]}}
+
+
+WITNESSES = {  # name -> (theorem, signature the monitors must report on the replay)
+    "f15": ("SyneTune.C01.notify_polled_counterexample", "c01:trial-never-polled-after-rebind"),
+    "clash": ("SyneTune.C01.notify_end_clash_counterexample", "c01:end-notified-twice"),
+    "pbt": ("SyneTune.C20Loop.pbt_counterexample", "c20:pbt-source-checkpoint-deleted"),
+}
+
+
+def witness_specs(driver="SyneTune/Drivers/Loop.lean"):
+    """asks the model driver for the witnesses of the `_counterexample` theorems and turns them into case specs"""
+    from framework import run_driver
+    header = {"stream": "loop", "n_workers": 1, "max_failures": 0, "criterion": {}, "key_time": 0, "key_cost": 1,
+              "key_tuner_time": 2, "metric_keys": [3], "modes": ["min"]}
+    names = sorted(WITNESSES)
+    outs = run_driver(driver, [header] + [{"op": "witness", "name": n} for n in names])
+    specs = []
+    for n, o in zip(names, outs[1:]):
+        if "out" not in o:
+            raise RuntimeError(f"driver does not know witness {n}: {o}")
+        specs.append(witness_spec(n, o["out"]))
+    return specs
+
+
+def monitor_witness(t):
+    """a replay run must reproduce its witness call by call"""
+    if "witness" not in t["spec"]:
+        return []
+    why = witness_mismatch(t)
+    if why is None:
+        return []
+    return [F("loop:witness-not-reproduced:" + t["spec"]["witness"],
+              f"the real Tuner does not follow the Lean witness {t['spec']['witness']}: {why}")]
+
+
+def witness_mismatch(t):
+    """the recorded dialogue of a replay run against the witness it replays: None if they are the same
+    sequence of calls and answers"""
+    want = t["spec"]["replay"]["dialogue"]
+    got = [{"call": e["call"], "ans": e["ans"]} for e in t["dlg"].entries]
+    canon = lambda x: json.dumps(x, sort_keys=True)
+    if len(got) != len(want):
+        return f"{len(got)} calls recorded, witness has {len(want)}"
+    for i, (g, w) in enumerate(zip(got, want)):
+        if canon(g) != canon(w):
+            return f"entry {i}: real {canon(g)[:200]} witness {canon(w)[:200]}"
+    be, sch = t["backend"], t["scheduler"]
+    if be.script_exhausted or sch.script_exhausted or be.polls or be.busy or sch.suggestions or sch.decisions:
+        return "the script was not consumed exactly"
+    return None
+
+
 def make_scheduler(sp, seed, max_t, sim):
     """sp: scheduler part of the spec. Returns (scheduler, uses_max_resource_attr)"""
     kind = sp["kind"]
@@ -723,6 +893,8 @@ def make_scheduler(sp, seed, max_t, sim):
         base = FIFOScheduler(cs, searcher="random", search_options={"debug_log": False}, metric=METRIC, mode=mode, random_seed=seed)
         return MedianStoppingRule(base, resource_attr=RES, grace_time=sp.get("grace_time", 1),
                                   grace_population=sp.get("grace_population", 2), rank_cutoff=sp.get("rank_cutoff", 0.5)), False
+    if kind == "replay":
+        return ReplayScheduler(sp["dialogue"], [METRIC], "min"), False
     raise ValueError(kind)
 
 
@@ -814,12 +986,17 @@ def run_loop(spec):
     try:
         sim = spec["backend"] == "sim"
         max_t = spec.get("max_t", 4)
-        sch, _ = make_scheduler(spec["scheduler"], spec["seed"] % 1000, max_t, sim)
+        sp_sched = spec["scheduler"]
+        if sp_sched["kind"] == "replay":
+            sp_sched = dict(sp_sched, dialogue=spec["replay"]["dialogue"])
+        sch, _ = make_scheduler(sp_sched, spec["seed"] % 1000, max_t, sim)
         names = list(sch.metric_names())
         for n in names:
             dlg.key(n)
         if sim:
             be = make_sim_backend(spec, max_t)
+        elif spec["backend"] == "replay":
+            be = ReplayBackend(spec["replay"]["dialogue"], names[0], delete_checkpoints=bool(spec.get("delete_checkpoints")))
         else:
             bp = dict(spec.get("backend_params", {}))
             bp.setdefault("vseed", spec["seed"] % 997)
@@ -1261,7 +1438,7 @@ def _calls(t):
 
 
 def is_pbt(t):
-    return type(t["scheduler"]).__name__ == "PopulationBasedTraining"
+    return type(t["scheduler"]).__name__ == "PopulationBasedTraining" or t["spec"].get("witness") == "pbt"
 
 
 def monitor_k(t):
@@ -1389,11 +1566,34 @@ def monitor_c01(t):
     # every end of a run that became visible before the last poll is notified
     be = t["backend"]
     if isinstance(be, ScriptBackend):
+        fetches = [i for i, c, a in calls if c[:2] == ["be", "fetch"]]
+        # polls whose results and statuses were processed to the end (`_update_running_trials` returned): no exception
+        # between the poll and the next one / the end of the loop
+        processed = set()
+        loop_raised = classify_raised(t) in ("no-metrics", "key-error", "assertion") or str(classify_raised(t)).startswith(("no-metrics", "other"))
+        for k, i in enumerate(fetches):
+            j = fetches[k + 1] if k + 1 < len(fetches) else len(calls)
+            seg = calls[i:j]
+            cut = next((x for x, (_, c, _) in enumerate(seg) if c == ["cb", "tuning_end"]), None)
+            body = seg if cut is None else seg[:cut]
+            raised_in = any(isinstance(a, dict) and "raise" in a for _, _, a in body)
+            if not raised_in and not (cut is not None and loop_raised) and not (cut is None and j == len(calls)):
+                processed.add(i)
         for tid, tr in be.truth.items():
-            ended = tr.get("ended_at")
-            if ended is None or open_run.get(tid) != "open":
+            if open_run.get(tid) != "open":
                 continue
-            later_polls = [i for i in range(ended + 1, last_fetch + 1) if t["dlg"].entries[i]["call"][:2] == ["be", "fetch"]]
+            after_start = [i for i in fetches if i > run_start.get(tid, -1)]
+            if after_start and all(tid not in t["dlg"].entries[i]["call"][2] for i in after_start):
+                out.append(F("c01:trial-never-polled-after-rebind",
+                             f"trial {tid} ({tr['status']}) was started but is missing from every later poll "
+                             f"(start_jobs_without_delay={t['header']['swd']}): its results and its end never reach the scheduler",
+                             {"trial": tid, "ended_at": tr.get("ended_at")}))
+                continue
+            ended = tr.get("ended_at")
+            if ended is None:
+                continue
+            later_polls = [i for i in range(ended + 1, last_fetch + 1)
+                           if t["dlg"].entries[i]["call"][:2] == ["be", "fetch"] and i in processed]
             if not later_polls:
                 continue
             was_polled = any(i > run_start.get(tid, -1) for i in polled.get(tid, []))
